@@ -1899,6 +1899,7 @@ mod trait_handlers;
 
 use std::collections::HashMap;
 
+#[cfg(not(magiclen_educe_verif))]
 use proc_macro::TokenStream;
 use supported_traits::Trait;
 use syn::{
@@ -2115,6 +2116,7 @@ fn derive_input_handler(ast: DeriveInput) -> syn::Result<proc_macro2::TokenStrea
     Ok(token_stream)
 }
 
+#[cfg(not(magiclen_educe_verif))]
 #[proc_macro_derive(Educe, attributes(educe))]
 pub fn educe_derive(input: TokenStream) -> TokenStream {
     struct MyDeriveInput(proc_macro2::TokenStream);
@@ -2132,4 +2134,10 @@ pub fn educe_derive(input: TokenStream) -> TokenStream {
     let derive_input = parse_macro_input!(input as MyDeriveInput);
 
     derive_input.0.into()
+}
+
+/// Verification hook (only with `--cfg magiclen_educe_verif`, when the crate is compiled as an ordinary library): runs the expansion in-process.
+#[cfg(magiclen_educe_verif)]
+pub fn verif_expand(input: proc_macro2::TokenStream) -> syn::Result<proc_macro2::TokenStream> {
+    derive_input_handler(syn::parse2::<DeriveInput>(input)?)
 }
